@@ -109,6 +109,13 @@ def run_implicit(inst, p, mode):
     bits, tol = 40, 1e-9
     if mode["solver"] == "kpm":
         kw = dict(direct_solver=False, solver_options=dict(atol=mode["atol"], max_moments=50000))
+        if mode.get("aux"):
+            # hybrid KPM: some exactly known eigenvectors of the implicit part are handled exactly
+            nexp_ = sum(inst["sizes"][:-1])
+            Qf = hermitian.to_numpy(inst["basis"]["M"], force_complex=inst["vtype"] == "numpy_complex")
+            naux = min(mode["aux"], inst["sizes"][-1] - 1)
+            if naux > 0:
+                kw["solver_options"]["auxiliary_vectors"] = np.ascontiguousarray(Qf[:, nexp_:nexp_ + naux])
         # orders <= 2: the true values are dyadic with denominators up to about 2^12 (gaps 1..8, entries
         # in halves, the dyadic unitary).  Observed KPM errors reach ~10 * atol * |value| at second order
         # (5e-7 on a value of 5 with atol = 1e-8); the grid 2^-16 has half-spacing 7.6e-6, so the snap
@@ -200,6 +207,7 @@ def _job(args):
 
 MODES = [dict(solver="direct"), dict(solver="direct", sparse_terms=True), dict(solver="direct_opts"),
          dict(solver="kpm", atol=1e-8),
+         dict(solver="kpm", atol=1e-8, aux=2),
          # non-Hermitian problems: biorthogonal (R, L) pairs for the explicit blocks, hermitian=False
          dict(solver="direct", nonhermitian=True)]
 
@@ -208,7 +216,7 @@ def run(pid, tier, seed, replay=None):
     t0 = time.time()
     p = common.P1
     quick = tier == "quick"
-    n = 40 if quick else 480
+    n = 42 if quick else 480
     jobs = [(seed, i, p, MODES[i % len(MODES)]) for i in range(n)]
     with mp.get_context("fork").Pool(16) as pool:
         items = pool.map(_job, jobs, chunksize=1)
@@ -264,7 +272,7 @@ def run(pid, tier, seed, replay=None):
         lines.append(f"VIOLATION property={pid} replay={path}")
     per_mode = {}
     for m in metas.values():
-        key = m["mode"]["solver"] + ("+sparse" if m["mode"].get("sparse_terms") else "") + (
+        key = m["mode"]["solver"] + ("+sparse" if m["mode"].get("sparse_terms") else "") + ("+aux" if m["mode"].get("aux") else "") + (
             "+nonhermitian" if m["mode"].get("nonhermitian") else "")
         per_mode[key] = per_mode.get(key, 0) + 1
     coverage = dict(
